@@ -48,6 +48,11 @@ deriving Inhabited
 /-- `_next_correlation_id` -/
 def nextCorr (c : Nat) : Nat := (c + 1) % 2 ^ 31
 
+/-- the counter after `k` further sends (the id given to the `k`-th of them) -/
+def corrSeq (c : Nat) : Nat → Nat
+  | 0 => c
+  | k + 1 => nextCorr (corrSeq c k)
+
 /-- give outcome `o` to every waiter that is still pending and satisfies `p` (its future
     becomes done; the request stays queued until its frame arrives or the connection closes) -/
 def resolveWhere (p : Req → Bool) (o : Outcome) (s : St) : St :=
@@ -62,7 +67,8 @@ def close (s : St) : St :=
 
 def send (s : St) (corr? : Bool) (k : Kind) : St :=
   if !s.isOpen then
-    { s with nextId := s.nextId + 1, out := (s.nextId, Outcome.connErr) :: s.out }
+    { s with nextId := s.nextId + 1, out := (s.nextId, Outcome.connErr) :: s.out,
+             issued := (s.nextId, none, k.quirk) :: s.issued }
   else
     let c := if corr? then nextCorr s.counter else s.counter
     { s with counter := c, nextId := s.nextId + 1,
